@@ -487,7 +487,11 @@ def run_sites(R, F, fns, rule, exceptions=None, S=None, skip_kinds=()):
             n = counts[kind]
             key = site_key(fn, b, kind, n)
             total += 1
-            ex = exceptions.get((fn.gpath, kind, n)) or exceptions.get((fn.gpath, kind, '*'))
+            # exceptions are looked up by (function, site kind); the ordinal only orders the candidates, because ordinals
+            # shift when code is added, removed or inlined.  Every premise is site-specific, so a premise that was
+            # written for another site of the same kind fails here.
+            cands = sorted(((k3, v) for (g3, kk, k3), v in exceptions.items() if g3 == fn.gpath and kk == kind), key=lambda kv: (kv[0] != n, str(kv[0])))
+            ex = cands[0][1] if cands else None
             goals = goals_for(an, b, kind)
             verdict = None
             why = ''
@@ -519,12 +523,18 @@ def run_sites(R, F, fns, rule, exceptions=None, S=None, skip_kinds=()):
             else:
                 why = 'obligation is not linear / not modelled (%s %s)' % (kind, detail)
             if verdict is not True and ex is not None:
-                reason, premise = ex
-                pok, pdetail = premise(F, fn, b) if premise else (True, '')
-                if pok:
-                    verdict, why = True, 'justified exception: %s [premises hold: %s]' % (reason, pdetail)
-                else:
-                    verdict, why = False, 'exception void, premise failed: %s (%s)' % (pdetail, reason)
+                fails = []
+                for _k3, (reason, premise) in cands:
+                    try:
+                        pok, pdetail = premise(F, fn, b) if premise else (True, '')
+                    except Exception as e_:          # a premise written for another site may not even parse this one
+                        pok, pdetail = False, 'premise not applicable here (%s)' % type(e_).__name__
+                    if pok:
+                        verdict, why = True, 'justified exception: %s [premises hold: %s]' % (reason, pdetail)
+                        break
+                    fails.append('%s (%s)' % (pdetail, reason))
+                if verdict is not True:
+                    verdict, why = False, 'exception void, premise failed: ' + ' | '.join(fails)[:700]
             R.require(bool(verdict), rule, key, fn.where(b), why, why)
     return total
 
@@ -537,8 +547,30 @@ def _len_atom_param(i):
     return lin('len:(*_%d)' % i)
 
 
-def prove_value(an, leaves, goal_fn, forward_ok=None):
-    """Prove goal_fn(value) at every leaf that may have produced the value.  Returns (ok, [detail])."""
+def prove_value(an, leaves, goal_fn, forward_ok=None, use_site=None):
+    """Prove goal_fn(value) at every leaf that may have produced the value.  Returns (ok, [detail]).
+    If that fails and the value has a single producer stored in a single-assignment local, the bound is also tried at
+    `use_site` (block, idx), where later guards on that local are visible."""
+    ok, details = _prove_value(an, leaves, goal_fn, forward_ok)
+    if ok or use_site is None:
+        return ok, details
+    fn = an.fn
+    rvs = [lf for lf in leaves if lf[0] == 'rv']
+    if len(leaves) == 1 and len(rvs) == 1:
+        _, b, i, rv = rvs[0]
+        sts = fn.blocks[b]['stmts']
+        if i < len(sts) and sts[i]['k'] == 'assign' and not sts[i]['lhs']['p'] and fn.single_def(sts[i]['lhs']['l']):
+            x = sts[i]['lhs']['l']
+            an._site = use_site
+            e = an.ev_place({'l': x, 'p': [], 'ty': ''})
+            if e is not None:
+                good, facts, res = an.prove(use_site[0], use_site[1], goal_fn(e))
+                if good:
+                    return True, ['proved at the use site for the single producer at %s' % fn.where(b)]
+    return ok, details
+
+
+def _prove_value(an, leaves, goal_fn, forward_ok=None):
     fn = an.fn
     details = []
     ok = True
@@ -891,12 +923,15 @@ def check_store_preserves(R, F, S, rule, sty, inv_terms, fields, exceptions=None
                         return add(e, scale(new, c)) if c else e
                     goals.append(le(sub(lhs), sub(rhs)))
                 ok, unmet = prove_at(an, b, i, goals)
-            ex = exceptions.get((fn.gpath, f, counts[k])) or exceptions.get((fn.gpath, f, '*'))
+            cands = [v for (g3, f3, k3), v in exceptions.items() if g3 == fn.gpath and f3 == f]
+            ex = bool(cands)
             why = 'the store keeps the invariant'
-            if not ok and ex:
-                reason, prem = ex
-                pok, pdet = prem(F, fn, b)
-                ok = pok
-                why = 'justified exception: %s [premises %s: %s]' % (reason, 'hold' if pok else 'FAILED', pdet)
+            if not ok and cands:
+                for reason, prem in cands:
+                    pok, pdet = prem(F, fn, b)
+                    why = 'justified exception: %s [premises %s: %s]' % (reason, 'hold' if pok else 'FAILED', pdet)
+                    if pok:
+                        ok = True
+                        break
             R.require(ok, rule, key, fn.where(b), why, 'cannot prove that the store of %s keeps the invariant: %s%s' % (f, unmet, ('; ' + why) if ex else ''))
     return n
